@@ -52,6 +52,8 @@ def close(a, b, tol=1e-9):
     return a == b
   if math.isnan(fa) or math.isnan(fb):
     return math.isnan(fa) and math.isnan(fb)
+  if math.isinf(fa) or math.isinf(fb):
+    return fa == fb
   return abs(fa - fb) <= tol * max(1.0, abs(fa), abs(fb))
 
 
